@@ -91,7 +91,8 @@ CHECKS = {
         "compress/repack/condense wrappers over abstract layouts: the chunk iteration covers every index exactly once "
         "for every rank/shape/chunk shape; copies preserve values, attributes, logs (string conversion lossless), "
         "tables with attributes, internal basin data and metadata; the copy is idempotent and its output a fixed "
-        "point; condense's feature set and scalar equality. Tied by vm_compute correspondence on 13 storage layouts "
+        "point; every basin definition is preserved (internal ones rewritten to exactly the copied features); condense's "
+        "feature set and scalar equality. Tied by vm_compute correspondence on 13 storage layouts "
         "written with raw h5py, sha256 of inputs, and the tasks applied to their own output; tdms2rtdc vs the tdms reader.",
    note="Trusted: Coq kernel+vm_compute; HDF5 filter pipeline and h5o.copy (bytes preserved); RTDCWriter; tdms reader; "
         "DEFECTIVE_FEATURES predicates evaluated by the real functions. Known findings: C08-condense-empty, "
@@ -139,12 +140,14 @@ CHECKS = {
         "input selected by the returned mask, the count is min(request, eligible) in both invalid-handling modes, the "
         "dataset-level mask lies inside filter.all and selects exactly the returned points, and the result never "
         "depends on the global RNG state; the two .pyx defects are _refuted/_partial pairs. Tied by vm_compute "
-        "correspondence against the compiled module AND the de-cythonised .pyx source.",
+        "correspondence against the compiled module AND the de-cythonised .pyx source; the arithmetic pieces of "
+        "downsampling.pyx (norm/cell index, branch conditions and amounts) are TRANSLATED into coq/Gen/DownsampleGen.v on "
+        "every run and proved equal to the model by bridge lemmas, so a semantic edit of the .pyx breaks an obligation.",
    note="Trusted: Coq kernel+vm_compute; model tied by differential testing; numpy RandomState(47) (oracle hypothesis "
         "choice_ok checked on every recorded draw); the observed NaN->uint32 cast; float cell index vs exact floor "
         "(generator avoids ranges divisible by 13 or 23); Cython missing: .pyx executed as de-cythonised Python. "
         "Known findings: C16-grid-pad-overrequest, C16-grid-constant-axis.",
-   technique="Coq proofs with a choice oracle (subset/count/determinism) + vm_compute correspondence on binary and de-cythonised source",
+   technique="Coq proofs with a choice oracle (subset/count/determinism) + .pyx-to-Coq translator with bridge lemmas + vm_compute correspondence on binary and de-cythonised source",
    design="5/C16"),
  "C06": dict(
    text="Machine-checked proof (Coq 8.16.1) about a Gallina model of the ancillary-feature machinery (__contains__, "
